@@ -45,6 +45,16 @@ PERT = [0.0, 0.0, 0.0, 2.0 ** -20, -2.0 ** -20, 0.25, -0.25, 2.0 ** -30]
 def make_case(rng, malformed):
     import flowpaths as fp
     G = gen.rand_cyclic(rng, nmax=rng.choice([4, 6, 7, 8]))
+    if rng.random() < 0.35:
+        # nested closed walks: self-loops on several nodes and extra back edges between inner nodes, so that a closed walk found
+        # in the splice phase itself passes a self-loop and leaves further closed walks dangling
+        inner = [v for v in G.nodes() if G.in_degree(v) > 0 and G.out_degree(v) > 0]
+        for v in inner:
+            if rng.random() < 0.5:
+                G.add_edge(v, v)
+        for _ in range(rng.randint(1, 4)):
+            if len(inner) >= 2:
+                a_, b_ = rng.sample(inner, 2); G.add_edge(a_, b_); G.add_edge(b_, a_)
     st = fp.stDiGraph(G)
     nlayers = rng.choice([1, 1, 2, 3])
     layers = []
